@@ -25,17 +25,27 @@ pub struct Plan {
     /// benign misbehaviour (short transfer, Interrupted) drawn from the tape with rate n/16
     pub benign_rate: u64,
     pub allow_interrupted: bool,
+    /// one `Interrupted` at exactly this data call (write resp. read / fill_buf); flush and seek calls are not interrupted
+    pub intr_at: Option<usize>,
+    /// one short transfer (half of the request, at least one byte) at exactly this data call
+    pub short_at: Option<usize>,
 }
 
 impl Plan {
     pub fn none() -> Self {
-        Plan { hard_at: None, hard_kind: ErrorKind::Other, persistent: false, zero_write: false, benign_rate: 0, allow_interrupted: false }
+        Plan { hard_at: None, hard_kind: ErrorKind::Other, persistent: false, zero_write: false, benign_rate: 0, allow_interrupted: false, intr_at: None, short_at: None }
     }
     pub fn hard(at: usize, kind: ErrorKind, persistent: bool) -> Self {
         Plan { hard_at: Some(at), hard_kind: kind, persistent, ..Plan::none() }
     }
     pub fn benign(rate: u64, interrupted: bool) -> Self {
         Plan { benign_rate: rate, allow_interrupted: interrupted, ..Plan::none() }
+    }
+    pub fn interrupted_at(at: usize) -> Self {
+        Plan { intr_at: Some(at), ..Plan::none() }
+    }
+    pub fn short_at(at: usize) -> Self {
+        Plan { short_at: Some(at), ..Plan::none() }
     }
 }
 
@@ -113,6 +123,16 @@ impl Write for SimSink {
             return Err(e);
         }
         let mut n = buf.len();
+        if self.plan.intr_at == Some(idx) && !buf.is_empty() {
+            st.intr_fired += 1;
+            self.ctx.fault("sink.interrupted_at", idx as u64);
+            return Err(io::Error::new(ErrorKind::Interrupted, "simulated EINTR"));
+        }
+        if self.plan.short_at == Some(idx) && buf.len() > 1 {
+            n = (buf.len() / 2).max(1);
+            st.short_fired += 1;
+            self.ctx.fault("sink.short_at", idx as u64);
+        }
         if self.plan.benign_rate > 0 && !buf.is_empty() {
             if self.plan.allow_interrupted && st.intr_burst < 3 && self.ctx.chance(self.plan.benign_rate, 64, "sink.intr") {
                 st.intr_burst += 1;
@@ -204,10 +224,25 @@ impl SimSource {
     }
     /// how many bytes of `want` this call delivers (>=1 when want>=1), or Interrupted
     fn benign(&self, want: usize) -> io::Result<usize> {
-        if self.plan.benign_rate == 0 || want == 0 {
+        if want == 0 {
             return Ok(want);
         }
         let mut st = self.st.lock().unwrap_or_else(|p| p.into_inner());
+        // the device call being served is the one `gate` just counted
+        let idx = st.calls.saturating_sub(1);
+        if self.plan.intr_at == Some(idx) {
+            st.intr_fired += 1;
+            self.ctx.fault("source.interrupted_at", idx as u64);
+            return Err(io::Error::new(ErrorKind::Interrupted, "simulated EINTR"));
+        }
+        if self.plan.short_at == Some(idx) && want > 1 {
+            st.short_fired += 1;
+            self.ctx.fault("source.short_at", idx as u64);
+            return Ok((want / 2).max(1));
+        }
+        if self.plan.benign_rate == 0 {
+            return Ok(want);
+        }
         if self.plan.allow_interrupted && st.intr_burst < 3 && self.ctx.chance(self.plan.benign_rate, 64, "src.intr") {
             st.intr_burst += 1;
             st.intr_fired += 1;
@@ -319,6 +354,8 @@ impl BufRead for ChunkedBufRead {
                 }
                 return Ok(&[]);
             }
+            // Interrupted (one-shot at a call index, or tape-driven bursts) before any byte is handed out
+            let n = self.src.benign(len - pos)?;
             let end = if let Some(c) = self.cuts.iter().find(|c| **c > pos) {
                 (*c).min(len)
             } else if !self.cuts.is_empty() {
@@ -326,7 +363,7 @@ impl BufRead for ChunkedBufRead {
             } else {
                 (pos + 1 + self.ctx.below(self.max_chunk.min(len - pos), "bufread.chunk")).min(len)
             };
-            self.cur_end = end;
+            self.cur_end = end.min(pos + n.max(1));
         }
         Ok(&self.src.data[pos..self.cur_end])
     }
